@@ -593,7 +593,8 @@ func (g *Gen) typeFacts(term string, t types.Type) string {
 		}
 	case *types.Slice:
 		return and("(<= 0 (sl_len "+term+"))", "(<= (sl_len "+term+") (sl_cap "+term+"))", "(<= 0 (sl_off "+term+"))",
-			implies(eq("(sl_arr "+term+")", "0"), eq("(sl_cap "+term+")", "0")))
+			implies(eq("(sl_arr "+term+")", "0"), eq("(sl_cap "+term+")", "0")),
+			or(eq("(sl_arr "+term+")", "0"), "(<= (atime (sl_arr "+term+")) "+g.heap(g.allocHeap())+")"))
 	case *types.Pointer:
 		var fs []string
 		fs = append(fs, or(eq(term, "0"), "(<= (atime "+term+") "+g.heap(g.allocHeap())+")"))
